@@ -3,7 +3,7 @@
 From NDN Require Import Base.Prelude Base.Utf8 Model.TlvVar Model.Name Model.Tlv Model.TlvChecked Model.Packet Spec.StrictTlv
   Proofs.BytesLemmas Proofs.TlvVarProofs Proofs.TlvSplit Proofs.TlvRoundtrip Proofs.PacketDecode.
 Local Open Scope N_scope.
-Set Default Timeout 60.
+Set Default Timeout 900.
 Arguments N.of_nat : simpl never.
 Arguments N.to_nat : simpl never.
 Arguments N.min : simpl never.
